@@ -21,3 +21,47 @@ func Harness_C09_decode_short() {
 	V.Assert(err == nil, "decoded string does not re-encode")
 	V.Assert(back == s, "accepted spelling is not canonical")
 }
+
+// Harness_C09_checksum_matrix: the real polymod over the expanded prefix and 58
+// arbitrary 5-bit data symbols: the engine's bit-level affine normal form of
+// the result is the parity-check matrix of the code as implemented. The
+// position-set sweep (gosym extra job "bch") reads it.
+func Harness_C09_checksum_matrix() {
+	hrp := "age"
+	if V.Param("identity", 0) == 1 {
+		hrp = "AGE-SECRET-KEY-"
+	}
+	d := V.Bytes("d", 58)
+	data := make([]byte, 58)
+	for i := range d {
+		data[i] = d[i] & 31
+	}
+	p := polymod(append(hrpExpand(hrp), data...))
+	V.Affine("polymod", p)
+	V.Reach("computed")
+}
+
+// Harness_C09_bch_replay: native confirmation of a counterexample of the
+// position-set sweep: the fixed valid key string with the data symbols at the
+// given positions XORed with the given non-zero error symbols must be refused.
+func Harness_C09_bch_replay() {
+	valid := "age1zvkyg2lqzraa2lnjvqej32nkuu0ues2s82hzrye869xeexvn73equnujwj"
+	s := []byte(valid)
+	n := V.Int("nerr", 1, 4)
+	for k := 0; k < n; k++ {
+		id := string(rune('0' + k))
+		pos := V.Int("pos"+id, 0, 57)
+		e := V.Int("err"+id, 1, 31)
+		idx := 0
+		for j := 0; j < 32; j++ {
+			if charset[j] == s[4+pos] {
+				idx = j
+			}
+		}
+		s[4+pos] = charset[idx^e]
+	}
+	V.Assume(string(s) != valid)
+	_, _, err := Decode(string(s))
+	V.Reach("decoded")
+	V.Assert(err != nil, "a key string with up to four substituted characters has a valid checksum")
+}
